@@ -278,7 +278,8 @@ func (k *signerKind) validate(cov enc.Wire, sig ndn.Signature) (bool, bool) {
 
 var (
 	ecKeys  []*ecdsa.PrivateKey
-	rsaKey  *rsa.PrivateKey
+	rsaKey  *rsa.PrivateKey   // 2048 bits
+	rsaKeys []*rsa.PrivateKey // 1024 and 2048 bits
 	keyInit bool
 )
 
@@ -299,6 +300,11 @@ func initKeys() {
 	if err != nil {
 		panic(err)
 	}
+	small, err := rsa.GenerateKey(crand.Reader, 1024)
+	if err != nil {
+		panic(err)
+	}
+	rsaKeys = []*rsa.PrivateKey{small, rsaKey}
 }
 
 // ---------------------------------------------------------------------------------------------- generators
@@ -516,6 +522,16 @@ func (g *gen) wire() enc.Wire {
 	return w
 }
 
+// HMAC key lengths around the SHA-256 block size (keys longer than a block are hashed first), and ordinary ones
+var hmacKeyLens = []int{0, 1, 31, 32, 33, 63, 64, 65, 127, 128, 129}
+
+func (g *gen) hmacKey() []byte {
+	if g.r.Intn(2) == 0 {
+		return g.rbytes(hmacKeyLens[g.r.Intn(len(hmacKeyLens))])
+	}
+	return g.rbytes(1 + g.r.Intn(40))
+}
+
 // time zones the validity period of a signer may be expressed in (the wire carries the instant in UTC)
 var zones = []*time.Location{time.UTC, time.FixedZone("p9", 9*3600), time.FixedZone("m7", -7*3600), time.FixedZone("p0545", 5*3600+45*60)}
 
@@ -602,7 +618,7 @@ func (g *gen) signer(forInterest bool) *signerKind {
 		}
 		return &signerKind{kind: "sha256", signer: sec.NewSha256Signer()}
 	case 2:
-		key := g.rbytes(1 + g.r.Intn(40))
+		key := g.hmacKey()
 		if forInterest {
 			return &signerKind{kind: "hmacint", signer: sec.NewHmacIntSigner(key, fakeTimer{g}), key: key}
 		}
@@ -614,7 +630,8 @@ func (g *gen) signer(forInterest bool) *signerKind {
 		return &signerKind{kind: "ecc", signer: sec.NewEccSigner(forCert, forInterest, time.Hour, k, kn), ecPub: &k.PublicKey}
 	case 5:
 		forCert := !forInterest && g.r.Intn(3) == 0
-		return &signerKind{kind: "rsa", signer: sec.NewRsaSigner(forCert, forInterest, time.Hour, rsaKey, kn), rsaPub: &rsaKey.PublicKey}
+		rk := rsaKeys[g.r.Intn(len(rsaKeys))]
+		return &signerKind{kind: "rsa", signer: sec.NewRsaSigner(forCert, forInterest, time.Hour, rk, kn), rsaPub: &rk.PublicKey}
 	case 6:
 		if g.r.Intn(4) == 0 {
 			return &signerKind{kind: "empty", signer: sec.NewEmptySigner()}
@@ -1027,6 +1044,7 @@ func (t *tracer) dataCase(g *gen, id int) {
 		return
 	}
 	b := join(res.Wire)
+	t.apiData(nm, cfg, content, rec, wf, b)
 	wv := "0"
 	if walkPacket(b) {
 		wv = "1"
@@ -1110,9 +1128,11 @@ func (t *tracer) reuseCase(g *gen, round int) {
 	sp := spec.Spec{}
 	forInt := round%2 == 1
 	kn := enc.Name{enc.NewStringComponent(8, "k")}
-	key := g.rbytes(1 + g.r.Intn(40))
+	key := g.hmacKey()
 	var sk *signerKind
-	switch (round / 2) % 4 {
+	switch (round / 2) % 5 {
+	case 4: // no signer: the encoders' own scratch buffers must not be shared between packets either
+		sk = &signerKind{kind: "none"}
 	case 0:
 		if forInt {
 			sk = &signerKind{kind: "sha256int", signer: sec.NewSha256IntSigner(fakeTimer{g})}
@@ -1141,11 +1161,12 @@ func (t *tracer) reuseCase(g *gen, round int) {
 		what = "int"
 	}
 	type kept struct {
-		wire enc.Wire
-		snap []byte
+		wire    enc.Wire
+		snap    []byte
+		obsThen string
 	}
 	var keep []kept
-	for k := 0; k < 3; k++ {
+	for k := 0; k < 4; k++ {
 		nm := enc.Name{enc.NewStringComponent(8, "reuse"), enc.Component{Typ: 8, Val: g.rbytes(1 + g.r.Intn(6))}}
 		var w enc.Wire
 		func() {
@@ -1168,13 +1189,14 @@ func (t *tracer) reuseCase(g *gen, round int) {
 			t.line("SAME reuse-%s-builds failed ok", sk.kind)
 			return
 		}
-		keep = append(keep, kept{w, join(w)})
+		obs0, _, _, _ := decode(what, enc.NewBufferReader(join(w)))
+		keep = append(keep, kept{w, join(w), obs0})
 		for j, p := range keep {
 			now := join(p.wire)
 			t.line("SAME reuse-%s-wire-of-packet-%d-unchanged-after-signing-%d %s %s", sk.kind, j, k, hx(now), hx(p.snap))
 			obs, sig, cov, _ := decode(what, enc.NewBufferReader(now))
+			t.line("SAME reuse-%s-packet-%d-decodes-to-the-same-fields-after-building-%d %s %s", sk.kind, j, k, strings.ReplaceAll(obs, " ", "_"), strings.ReplaceAll(p.obsThen, " ", "_"))
 			if obs == "err" || obs == "panic" || sig == nil {
-				t.line("SAME reuse-%s-packet-%d-decodes-after-signing-%d %s ok", sk.kind, j, k, obs)
 				continue
 			}
 			if ok, have := sk.validate(cov, sig); have {
@@ -1212,7 +1234,7 @@ func (t *tracer) seqCase(g *gen, round int) {
 	k := 3 + g.r.Intn(2)
 	for j := 0; j < k; j++ {
 		forInt := (round+j)%2 == 1
-		key := g.rbytes(1 + g.r.Intn(40))
+		key := g.hmacKey()
 		var sk *signerKind
 		switch (round + j) % 4 {
 		case 0:
@@ -1469,6 +1491,91 @@ func TestSignerFacts(t *testing.T) {
 	signerFacts(g, func(format string, a ...any) { fmt.Fprintf(f, format+"\n", a...) })
 }
 
+// Public-API round trip: what went into MakeData / MakeInterest comes out of the accessors of ndn.Data / ndn.Interest /
+// ndn.Signature of the decoded packet (the raw decoded fields are compared with the model elsewhere; the accessors are
+// what applications call: Name(), FinalBlockID(), Validity(), ...).
+func optStr[T any](p *T, f func(T) string) string {
+	if p == nil {
+		return "nil"
+	}
+	return f(*p)
+}
+
+func (t *tracer) apiData(nm enc.Name, cfg *ndn.DataConfig, content enc.Wire, rec *recSigner, wf bool, b []byte) {
+	d, _, err := spec.Spec{}.ReadData(enc.NewBufferReader(append([]byte{}, b...)))
+	if err != nil {
+		return // reported by the round-trip lines
+	}
+	t.line("SAME api-data-Name %s %s", nameStr(d.Name()), nameStr(nm))
+	t.line("SAME api-data-ContentType %s %s", optStr(d.ContentType(), func(x ndn.ContentType) string { return strconv.FormatUint(uint64(x), 10) }),
+		optStr(cfg.ContentType, func(x ndn.ContentType) string { return strconv.FormatUint(uint64(x), 10) }))
+	if wf {
+		t.line("SAME api-data-Freshness %s %s", durOpt(d.Freshness()), durOpt(cfg.Freshness))
+	}
+	cs := func(c enc.Component) string { return strconv.FormatUint(uint64(c.Typ), 10) + ":" + hex.EncodeToString(c.Val) }
+	t.line("SAME api-data-FinalBlockID %s %s", optStr(d.FinalBlockID(), cs), optStr(cfg.FinalBlockID, cs))
+	t.line("SAME api-data-Content %s %s", hx(join(d.Content())), hx(join(content)))
+	if rec == nil || !rec.signed || rec.cfg == nil {
+		return
+	}
+	sig := d.Signature()
+	t.line("SAME api-data-SigType %d %d", int(sig.SigType()), int(rec.cfg.Type))
+	t.line("SAME api-data-KeyName %s %s", nameOpt(sig.KeyName()), nameOpt(rec.cfg.KeyName))
+	t.line("SAME api-data-SigValue %s %s", hx(sig.SigValue()), hx(rec.sig))
+	if rec.cfg.NotBefore != nil && rec.cfg.NotAfter != nil {
+		nb, na := sig.Validity()
+		us := func(x time.Time) string { return strconv.FormatInt(x.Unix(), 10) }
+		t.line("SAME api-data-Validity %s/%s %s/%s", optStr(nb, us), optStr(na, us), us(*rec.cfg.NotBefore), us(*rec.cfg.NotAfter))
+	}
+}
+
+func (t *tracer) apiInt(final enc.Name, cfg *ndn.InterestConfig, app enc.Wire, rec *recSigner, wf bool, b []byte) {
+	i, _, err := spec.Spec{}.ReadInterest(enc.NewBufferReader(append([]byte{}, b...)))
+	if err != nil {
+		return
+	}
+	u := func(x uint64) string { return strconv.FormatUint(x, 10) }
+	t.line("SAME api-int-Name %s %s", nameStr(i.Name()), nameStr(final))
+	t.line("SAME api-int-CanBePrefix/MustBeFresh %v/%v %v/%v", i.CanBePrefix(), i.MustBeFresh(), cfg.CanBePrefix, cfg.MustBeFresh)
+	hs := func(ns []enc.Name) string {
+		if len(ns) == 0 { // the accessor cannot tell an empty ForwardingHint element from an absent one (nil and empty slice)
+			return "[]"
+		}
+		parts := make([]string, len(ns))
+		for k, n := range ns {
+			parts[k] = nameStr(n)
+		}
+		return "[" + strings.Join(parts, "+") + "]"
+	}
+	t.line("SAME api-int-ForwardingHint %s %s", hs(i.ForwardingHint()), hs(cfg.ForwardingHint))
+	t.line("SAME api-int-Nonce %s %s", optStr(i.Nonce(), u), optStr(cfg.Nonce, func(x uint64) string { return u(x & 0xffffffff) }))
+	if wf {
+		t.line("SAME api-int-Lifetime %s %s", durOpt(i.Lifetime()), durOpt(cfg.Lifetime))
+	}
+	t.line("SAME api-int-HopLimit %s %s", optStr(i.HopLimit(), func(x uint) string { return u(uint64(x)) }), optStr(cfg.HopLimit, func(x uint) string { return u(uint64(x & 0xff)) }))
+	ap := func(w enc.Wire) string {
+		if w == nil {
+			return "nil"
+		}
+		return hx(join(w))
+	}
+	t.line("SAME api-int-AppParam %s %s", ap(i.AppParam()), ap(app))
+	if rec == nil || !rec.signed || rec.cfg == nil {
+		return
+	}
+	sig := i.Signature()
+	c := rec.cfg
+	t.line("SAME api-int-SigType %d %d", int(sig.SigType()), int(c.Type))
+	if c.Type != ndn.SignatureDigestSha256 {
+		t.line("SAME api-int-KeyName %s %s", nameOpt(sig.KeyName()), nameOpt(c.KeyName))
+	}
+	t.line("SAME api-int-SigNonce %s %s", hxOpt(sig.SigNonce()), hxOpt(c.Nonce))
+	t.line("SAME api-int-SigSeqNum %s %s", optStr(sig.SigSeqNum(), u), optStr(c.SeqNum, u))
+	ms := func(x time.Time) string { return strconv.FormatInt(x.UnixMilli(), 10) }
+	t.line("SAME api-int-SigTime %s %s", optStr(sig.SigTime(), ms), optStr(c.SigTime, ms))
+	t.line("SAME api-int-SigValue %s %s", hx(sig.SigValue()), hx(rec.sig))
+}
+
 func (t *tracer) intCase(g *gen, id int) {
 	sp := spec.Spec{}
 	nm := g.name()
@@ -1578,6 +1685,7 @@ func (t *tracer) intCase(g *gen, id int) {
 		return
 	}
 	b := join(res.Wire)
+	t.apiInt(res.FinalName, cfg, app, rec, wf, b)
 	wv := "0"
 	if walkPacket(b) {
 		wv = "1"
